@@ -1,8 +1,15 @@
 PROP = dict(
-    modules=["Shangrla.Props.C03"],
+    modules=["Shangrla.Props.C03", "Shangrla.Props.RiskLimitComparisonFull"],
     theorems=["Shangrla.C03.cvr_assort_sum", "Shangrla.C03.overstatement_identity", "Shangrla.C03.reject_equiv",
               "Shangrla.C03.cvrAssort_score", "Shangrla.Overstatement.poolMeans_lookup",
-              "Shangrla.Overstatement.group_sum", "Shangrla.Overstatement.compData_eq_mapM"],
+              "Shangrla.Overstatement.group_sum", "Shangrla.Overstatement.compData_eq_mapM",
+              # C03 composed with C06, C09 and C01 on the literal model (pools, phantoms, style filter, ONEAudit): if the
+              # assertion is false on the manual records the audit is ever reported complete with probability at most
+              # the risk limit; the per-card datum is read off mvrsToData and equals mvrsToData on every sample
+              "Shangrla.RiskLimit.contributes_passes", "Shangrla.RiskLimit.sample_data_formula",
+              "Shangrla.RiskLimit.cardDatum_eq", "Shangrla.RiskLimit.score_range",
+              "Shangrla.RiskLimit.sample_data_model", "Shangrla.RiskLimit.comparison_full_risk_limit",
+              "Shangrla.RiskLimit.example_comparison_full_exact"],
     groups={"overstatement": (1500, 20000)},
     design_ref="DESIGN.md section 5, C03",
     assumptions=[
@@ -14,5 +21,11 @@ PROP = dict(
         "phantom needs no hypothesis (its own A value enters the pool mean and the margin alike)",
         "the margin, the pool means and the data are computed under one style flag (stratum.use_style = "
         "contest.use_style = the use_style passed to set_tally_pool_means)",
+        "comparison_full_risk_limit (C03 o C06 o C09 o C01): one stratum; the cards are drawn without replacement in "
+        "uniformly random order from the whole population of (MVR, CVR) pairs; the false assertion's test has N = number "
+        "of cards under audit, t = 1/2 and the u that set_margin_from_cvrs installs; assorter values of CVRs and MVRs in "
+        "[0, u]; the per-contest sample thresholds of consistent sampling are not part of the draw tree "
+        "(sample_data_model: with use_all=False the data are the same whenever the sampled cards' sample numbers are "
+        "within the threshold)",
     ],
 )
